@@ -9,7 +9,6 @@ package c07
 import (
 	"io"
 	"os"
-	"sort"
 	"strings"
 
 	"github.com/benoitkugler/webrender/logger"
@@ -26,9 +25,14 @@ type family interface {
 }
 
 type check struct {
-	fams   []family
-	starts []int64
-	total  int64
+	fams  []family
+	order []unitRef // global unit -> (family, unit of the family)
+	total int64
+}
+
+type unitRef struct {
+	fam   uint8
+	local int32
 }
 
 func init() { engine.Register(&check{}) }
@@ -48,9 +52,6 @@ func pick(tier string, q, t int) int {
 
 // sigma0: one symbol per code-point class of CSS Syntax §4 plus every literal the tokenizer tests.
 var sigma0 = append(split("aeuU-\\0.+/*\"'\n (){}[];:!#@%<>,?=|é"), "\t")
-
-var famOrder = map[string]int{"html-metadata": 1, "html-attributes": 2, "svg-references": 3, "svg": 4, "urls": 5, "nth+colour": 6,
-	"css-syntax": 7, "stylesheets": 8, "selectors": 9, "declarations": 10}
 
 func (c *check) Init(tier string, seed int64) engine.Space {
 	logger.WarningLogger.SetOutput(io.Discard)
@@ -125,10 +126,6 @@ func (c *check) Init(tier string, seed int64) engine.Space {
 	// 8. HTML attribute readers; the date grammar of the metadata reader
 	c.fams = append(c.fams, newHTMLFam(tier), newMetaFam(tier))
 
-	// the small families first: when a run is cut by its deadline (a loaded machine, or a defect
-	// that kills a worker in many cases), what is lost is the tail of the largest string spaces
-	sort.SliceStable(c.fams, func(i, j int) bool { return famOrder[c.fams[i].name()] < famOrder[c.fams[j].name()] })
-
 	// development aid: C07_ONLY=<family,family> restricts the run (never set by the registered commands)
 	if only := os.Getenv("C07_ONLY"); only != "" {
 		var keep []family
@@ -141,13 +138,30 @@ func (c *check) Init(tier string, seed int64) engine.Space {
 		}
 		c.fams = keep
 	}
-	c.starts = c.starts[:0]
+	// The families advance together: global unit u is the unit of the family that is least far
+	// through its own units (every family enumerates shortest first). A run that is cut by its
+	// deadline (a loaded machine, or a defect that costs a worker per case) has then covered the
+	// same fraction, and the simplest inputs, of every family instead of none of the last ones.
 	c.total = 0
 	bounds := map[string]any{}
-	for _, f := range c.fams {
-		c.starts = append(c.starts, c.total)
-		c.total += f.nunits()
+	n := make([]int64, len(c.fams))
+	for i, f := range c.fams {
+		n[i] = f.nunits()
+		c.total += n[i]
 		bounds[f.name()] = f.bounds()
+	}
+	c.order = make([]unitRef, 0, c.total)
+	next := make([]int64, len(c.fams))
+	for int64(len(c.order)) < c.total {
+		best := -1
+		for i := range c.fams {
+			// smallest (next+1)/n: compare by cross-multiplication
+			if next[i] < n[i] && (best < 0 || (next[i]+1)*n[best] < (next[best]+1)*n[i]) {
+				best = i
+			}
+		}
+		c.order = append(c.order, unitRef{uint8(best), int32(next[best])})
+		next[best]++
 	}
 	assumptions := []string{
 		"inputs longer than the stated bounds are not explored; symbols outside an alphabet are assumed to behave like the representative of their class",
@@ -171,11 +185,8 @@ func (c *check) Init(tier string, seed int64) engine.Space {
 }
 
 func (c *check) locate(u int64) (family, int64) {
-	k := len(c.fams) - 1
-	for k > 0 && c.starts[k] > u {
-		k--
-	}
-	return c.fams[k], u - c.starts[k]
+	r := c.order[u]
+	return c.fams[r.fam], int64(r.local)
 }
 
 func (c *check) Run(u int64, ctx *engine.Ctx) {
